@@ -393,11 +393,11 @@ def canaries(tier):
         {'name': 'results scattered by batch position instead of line id',
          'patches': [(_F, '                for ids, transcription, line_logits in zip(batch_line_ids, out_transcriptions, out_logits):\n                    all_transcriptions[ids] = transcription',
                       '                for ids, transcription, line_logits in zip(range(len(batch_line_ids)), out_transcriptions, out_logits):\n                    all_transcriptions[ids] = transcription')],
-         'tasks': q, 'error_counts': True},
-        {'name': 'frame window computed as pad//ss + w//ss',
+         'tasks': [t for t in q if t['n'] == 2], 'error_counts': True},
+        {'name': 'frame window computed as pad//ss + w//ss (the same value whenever the padding is a multiple of the sub-sampling, as in every engine configuration: negative control)',
          'patches': [(_F, '                            int((self.line_padding_px + lines[ids].shape[1]) // self.net_subsampling)]\n\n                    elif self.model_type == "transformer":',
                       '                            int(self.line_padding_px // self.net_subsampling + lines[ids].shape[1] // self.net_subsampling)]\n\n                    elif self.model_type == "transformer":')],
-         'tasks': [t for t in q if t['flavour'] == 'dense']},
+         'tasks': [t for t in q if t['flavour'] == 'dense' and t['n'] == 2], 'expect': False},
         {'name': 'sparsification threshold <= instead of <',
          'patches': [(_F, 'line_logits[line_probs < 0.0001] = 0', 'line_logits[line_probs <= 0.0001] = 0')], 'tasks': [t for t in tasks('quick') if t['mode'] == 'sparse']},
         {'name': 'batch shorter than the id list consumed (ids advance by batch_size + 1)',
